@@ -970,7 +970,7 @@ type c18WriteCase struct {
 	Call      int    `json:"call"` // 0 = fault-free comparison; -1 = every call; k = fail at call k
 	Short     bool   `json:"short,omitempty"`
 	Transient bool   `json:"transient,omitempty"` // only that call fails, later writes succeed again
-	Mode      int    `json:"mode,omitempty"`      // 0 sticky, 1 sticky short, 2 transient, 3/4 transient (short / nothing taken) with EINTR, 5/6 with EAGAIN, 7/8 the error comes with the full count (sticky / one-off)
+	Mode      int    `json:"mode,omitempty"`      // 0 sticky, 1 sticky short, 2 transient, 3/4 transient (short / nothing taken) with EINTR, 5/6 with EAGAIN, 7/8 the error comes with the full count (sticky / one-off), 9 a short count without an error
 }
 
 func c18WriteSub() *engine.Sub {
@@ -1087,7 +1087,7 @@ func c18WriteSub() *engine.Sub {
 				lo, hi = cs.Call, cs.Call
 			}
 			for i := lo; i <= hi; i++ {
-				for mode := 0; mode < 9; mode++ {
+				for mode := 0; mode < 10; mode++ {
 					// modes 3..6: the failing call takes half of the data (or nothing) and fails with EINTR / EAGAIN - an
 					// error that invites a retry; later calls succeed. A call that failed has failed: an error, never a CID.
 					// modes 7, 8: the failing call reports the error together with the FULL count (len(p), err) - sticky and one-off
@@ -1104,6 +1104,28 @@ func c18WriteSub() *engine.Sub {
 						continue
 					}
 					w := &engine.PosWriter{FailCall: i, Short: short, Transient: transient, Err: werr, Full: full}
+					if mode == 9 {
+						// mode 9: call i takes half of the data and says (n/2, nil) - no error although the count is short; the
+						// writer goes on normally. Whatever the library makes of it (an error is the honest answer): if it reports
+						// success, the bytes in the sink are the buffered call's and the CID is theirs
+						w = &engine.PosWriter{FailCall: i, ShortNil: true, Transient: true}
+						cid9, err9 := api.Stream(w)
+						ctx.Eval(1)
+						if err9 == nil && w.Hit {
+							okBytes := bytes.Equal(w.Buf, clean.Buf)
+							if !okBytes && api.SetOf != nil {
+								x, e1 := api.SetOf(w.Buf)
+								y, e2 := api.SetOf(clean.Buf)
+								okBytes = e1 == nil && e2 == nil && x == y && len(w.Buf) == len(clean.Buf)
+							}
+							if !okBytes {
+								ctx.Failf(&c18WriteCase{API: cs.API, Call: i, Mode: mode}, "success-with-incomplete-output/short-count-without-error/"+strings.Split(api.Name, "[")[0], "%s reports success although write call %d of %d took only half of its data: the sink holds %d bytes, the buffered call produces %d", api.Name, i, clean.Calls, len(w.Buf), len(clean.Buf))
+							} else if cid9 != "" && cid9 != refCID(w.Buf).String() {
+								ctx.Failf(&c18WriteCase{API: cs.API, Call: i, Mode: mode}, "writer-cid-wrong/short-count-without-error/"+strings.Split(api.Name, "[")[0], "%s reports CID %s after write call %d of %d took only half of its data; the %d bytes in the sink hash to %s", api.Name, cid9, i, clean.Calls, len(w.Buf), refCID(w.Buf))
+							}
+						}
+						continue
+					}
 					_, err := api.Stream(w)
 					ctx.Eval(1)
 					ctx.Trans(1)
